@@ -11,7 +11,7 @@ HYPOTHESES = ['HB4_hash (hashlib/hmac are deterministic functions of their input
 NOT_YET_PROVED = []
 ASSUMPTIONS = ["k % N != 0, x(kG) % N != 0, s != 0 and x(kG) < N are explicit hypotheses (sets of relative size <= 2^-127, not reachable through HMAC)"]
 nontrivial = nontrivial_default
-EXTRA_MODULES = {"Props.TieSecp": "PyEcc.Tie."}
+EXTRA_MODULES = {"Props.TieSecp": "PyEcc.Tie.", "Props.TieHashSecp": "PyEcc.Tie."}
 P_, N_ = O.SECP_P, O.SECP_N
 
 
